@@ -374,6 +374,7 @@ type GraphProg struct {
 	Reg      []int   `json:"reg,omitempty"`  // registration order (default 0..n-1)
 	Base     []int   `json:"base,omitempty"` // base iteration order of the user names
 	Mode     int     `json:"mode,omitempty"`
+	SliceOpt bool    `json:"optional_slices,omitempty"` // the slice points are declared required=false
 	Faults   bool    `json:"faults,omitempty"`
 	ErrShape int     `json:"err_shape,omitempty"`
 	Kinds    string  `json:"kinds,omitempty"`
@@ -546,11 +547,15 @@ func (p *GraphProg) Tags() (tags map[string]map[string]string, slots [][]string)
 				t["S5"] = "usertag|whatever,required=false"
 			}
 		}
+		opt := ""
+		if p.SliceOpt {
+			opt = ",required=false"
+		}
 		if len(ql) > 0 {
-			t["L0"] = ",qualifier=" + strings.Join(ql, " ")
+			t["L0"] = ",qualifier=" + strings.Join(ql, " ") + opt
 		}
 		if len(qlp) > 0 {
-			t["LP"] = ",qualifier=" + strings.Join(qlp, " ")
+			t["LP"] = ",qualifier=" + strings.Join(qlp, " ") + opt
 		}
 		tags[nm] = t
 	}
